@@ -1,6 +1,7 @@
 import Sismic.Proofs.C03
 import Sismic.Spec.Legal
 import Sismic.Proofs.Legal
+import Sismic.Proofs.WFCheck
 /-!
 # Property C02 — the active configuration is always a legal, stable statechart configuration
 
@@ -219,5 +220,33 @@ theorem legal_preserved_partial (hwf : WFChart env.chart) (clock : Int) (rs rs' 
     rcases hfin.1 with he | hS
     · exact Or.inl he
     · exact Or.inr (semi_stable_legal env.chart hwf hS hstable)
+
+/-! ### non-vacuity: a statechart with an orthogonal state, a nested target and a history state is
+    well-formed (by the decision procedure `wfB`, which the driver also evaluates on every generated
+    chart — `wf` in the observations, compared with an independent Python implementation) -/
+
+def exChart : Chart :=
+  { states := [{ name := "r", kind := .compound, initial := some "a" },
+               { name := "a", kind := .basic },
+               { name := "p", kind := .orthogonal },
+               { name := "p1", kind := .compound, initial := some "x" },
+               { name := "p2", kind := .compound, initial := some "u" },
+               { name := "x", kind := .basic }, { name := "y", kind := .basic },
+               { name := "h", kind := .shallow, memory := some "x" },
+               { name := "u", kind := .basic }, { name := "f", kind := .final }],
+    parent := [("r", none), ("a", some "r"), ("p", some "r"), ("p1", some "p"), ("p2", some "p"),
+               ("x", some "p1"), ("y", some "p1"), ("h", some "p1"), ("u", some "p2"), ("f", some "r")],
+    children := [(none, ["r"]), (some "r", ["a", "p", "f"]), (some "a", []), (some "p", ["p1", "p2"]),
+                 (some "p1", ["x", "y", "h"]), (some "p2", ["u"]), (some "x", []), (some "y", []),
+                 (some "h", []), (some "u", []), (some "f", [])],
+    transitions := [{ id := 0, source := "a", target := some "y", event := some "e" },
+                    { id := 1, source := "p", target := some "a", event := some "back" },
+                    { id := 2, source := "a", target := some "h", event := some "again" },
+                    { id := 3, source := "x", target := some "y", event := some "n" },
+                    { id := 4, source := "a", target := some "f", event := some "end" }] }
+
+example : WFChart exChart := wfB_sound exChart (by decide)
+
+example : Legal exChart ["r", "p", "p1", "p2", "y", "u"] := legalB_sound exChart _ (by decide) (by decide)
 
 end Sismic.C02
